@@ -219,6 +219,14 @@ def r2b(repo, run):
             if impl.elems is None or len(impl.elems) != 2 or any(x.const not in (True, False) for x in impl.elems):
                 raise AnalysisError('parse_scalar: implicit pair %s not evaluable' % impl.text[:40])
             res.setdefault(style, set()).add((impl.elems[0].const, impl.elems[1].const))
+            if p.status == 'return' and co and p.ret is not None:
+                R = co[0].result.text
+                if p.ret.text == R:
+                    pass
+                elif p.ret.text in ('ConfigNode(None)',) and tr.fact(p, R + ' is None', True):
+                    pass
+                else:
+                    other.add('the value a tagged scalar resolves to is post-processed (%s is returned instead of what the untagged scalar constructs): the tag changes the value [%s]' % (p.ret.text[:50], tr.describe(p, 4)))
             if r.args[0].text != 'yaml.ScalarNode' or r.args[1].text not in ('copy.deepcopy(node).value', 'node.value', 'copy.copy(node).value'):
                 other.add('the tag-erased scalar is not resolved as (ScalarNode, value, implicit)')
             if len(co) != 1 or co[0].kw.get('convert') is None or co[0].kw['convert'].const is not False:
